@@ -232,7 +232,7 @@ theorem wT_flush (g : Cfg) (s : S) (ks : List KAns) (h : (flush g s ks).wl ≠ [
   · rfl
   rename_i hc
   split
-  · rfl
+  · exact wT_cResetRead g s
   · rename_i hne
     rw [if_neg hc, if_neg hne] at h
     exact (flushLoop_timer g _ s ks (by simpa using hc)).2 h
